@@ -146,6 +146,17 @@ def plan(tier, seed):
                 text = '[tool.poetry]\nname = "x"\nversion = "1"\n\n[tool.poetry.dependencies]\npython = "^3.10"\nrequests = "^2.0"\n' + (checker if table == "tool.poetry.dependencies" else f"\n[{table}]\n" + checker)
                 jobs.append({"id": f"stub|{cid}|{table}|{spec}", "cid": cid, "pkg": pkg, "presence": None, "manifests": {"pyproject.toml": text}, "files": {"app.py": b64(src.encode()), "pyproject.toml": b64(text.encode())},
                              "argv": ["{proj}", "--output", "{out}", "--codemod-include", cid], "repeat": 2, "monitors": {"snap": False}})
+    # manifests that are not UTF-8 (PowerShell's `pip freeze > requirements.txt` is UTF-16 with a BOM), alone and next to a usable fallback manifest
+    ENC = {"utf-16": "requests\nflask==2.0\n".encode("utf-16"), "utf-16-crlf": "requests\r\nflask==2.0\r\n".encode("utf-16"), "latin-1": "requests  # d\xe9pendance\nflask\n".encode("latin-1"), "utf-8-bom": b"\xef\xbb\xbfrequests\nflask\n"}
+    for ek, data in sorted(ENC.items()):
+        for fb in (None, "setup.cfg", "setup.py"):
+            for cid, (src, pkg) in sorted(TRIG.items()):
+                files = {"app.py": b64(src.encode()), "requirements.txt": b64(data)}; mf = {}
+                if fb == "setup.cfg": mf[fb] = "[metadata]\nname = x\n\n[options]\ninstall_requires =\n    requests\n"
+                if fb == "setup.py": mf[fb] = 'from setuptools import setup\nsetup(\n    name="x",\n    install_requires=[\n        "requests",\n    ],\n)\n'
+                for k_, t_ in mf.items(): files[k_] = b64(t_.encode())
+                jobs.append({"id": f"enc|{ek}|{fb}|{cid}", "cid": cid, "pkg": pkg, "presence": None, "manifests": mf, "encoded": {"name": "requirements.txt", "encoding": ek, "bytes": b64(data)}, "files": files,
+                             "argv": ["{proj}", "--output", "{out}", "--codemod-include", cid], "repeat": 2, "monitors": {"snap": False}})
     # several dependency-adding codemods in ONE run: the same package needed twice (url-sandbox and sandbox-process-creation both need `security`), different packages
     MULTI = [(["pixee:python/url-sandbox", "pixee:python/sandbox-process-creation"], ["security"], "import requests\nimport subprocess\nfrom flask import request\ndef v():\n    requests.get(request.args['u'])\n    subprocess.run(request.args['c'])\n"),
              (["pixee:python/sandbox-process-creation", "pixee:python/url-sandbox"], ["security"], "import requests\nimport subprocess\nfrom flask import request\ndef v():\n    requests.get(request.args['u'])\n    subprocess.run(request.args['c'])\n"),
@@ -166,7 +177,22 @@ def judge(job, res):
     r1, r2 = res["runs"]; pkg = canonicalize_name(job["pkg"])
     w = {"codemod": job["cid"], "presence": job["presence"], "manifests": job["manifests"]}
     if r1["rc"] != 0 or r1["exc"]:
-        v.append(Violation("C14", "run-failed", f"rc={r1['rc']} exc={r1['exc']}", dict(w, log=r1["log"][-600:]))); return v, st, nt
+        key = "run-failed" + ("/non-utf8-manifest/" + job["encoded"]["encoding"] if job.get("encoded") else "")
+        v.append(Violation("C14", key, f"rc={r1['rc']} exc={r1['exc']}", dict(w, log=r1["log"][-600:]))); return v, st, nt
+    if job.get("encoded"):
+        enc = job["encoded"]; got = r1["tree"].get(enc["name"]); st["non_utf8_manifest_cases"] += 1
+        if got != "F:" + enc["bytes"]:
+            codec = {"utf-16-crlf": "utf-16", "utf-8-bom": "utf-8-sig"}.get(enc["encoding"], enc["encoding"])
+            try:
+                text = unb(got[2:]).decode(codec)
+                names = [canonicalize_name(Requirement(l.split("#")[0].strip()).name) for l in text.splitlines() if l.split("#")[0].strip()]
+                if names.count(pkg) != 1 or "requests" not in names or "flask" not in names: raise ValueError(f"requirements after: {names}")
+            except Exception as ex:
+                v.append(Violation("C14", "non-utf8-manifest-damaged/" + enc["encoding"], f"{enc['name']} ({enc['encoding']}) was rewritten and is no longer a valid manifest in its encoding: {ex!r}"[:300], w))
+        elif job["manifests"]:
+            fb = next(iter(job["manifests"])); after_fb = unb(r1["tree"][fb][2:]).decode("utf-8")
+            if after_fb == job["manifests"][fb] and "unable to automatically add" not in r1["report"]["results"][0]["description"]:
+                v.append(Violation("C14", "fallback-manifest-not-tried", f"{enc['name']} could not be updated, {fb} could, but nothing was updated and the report does not say so", w))
     if job["manifests"]: nt.append(job["id"])
     updated = []
     for kind, before in job["manifests"].items():
@@ -198,6 +224,7 @@ def judge(job, res):
         for pk in job.get("pkgs", []): extra.pop(canonicalize_name(pk), None)
         extra = {k: n for k, n in extra.items() if not k.startswith("types-")}
         if extra: v.append(Violation("C14", f"unexpected-requirements-added/{kind}", str(extra), dict(w, after=after)))
+    if job.get("encoded") and r1["tree"].get(job["encoded"]["name"]) != "F:" + job["encoded"]["bytes"]: updated.append(job["encoded"]["name"])
     if len(updated) > 1: v.append(Violation("C14", "several-manifests-updated", str(updated), w))
     desc = r1["report"]["results"][0]["description"]
     if not updated and "unable to automatically add" not in desc and not any(True for _ in []):
